@@ -51,7 +51,7 @@ func (r *runner) childMain(from int) {
 	default:
 		r.cacheLimit = cacheMax(r.t, r.p, r.sp.v, r.sp.seed) + cacheSlack
 		r.onBegin = func(i int, in *input) {
-			fmt.Fprintf(out, "%s BEGIN %d %s %s | %s | %s\n", childTag, i, in.suspect, in.id(), in.class, in.desc)
+			fmt.Fprintf(out, "%s BEGIN %d %s %s %s %s\n", childTag, i, in.suspect, in.id(), strings.ReplaceAll(in.class, " ", "_"), in.desc)
 		}
 		r.onEnd = func(i int, in *input, status string) {
 			fmt.Fprintf(out, "%s END %d %s\n", childTag, i, status)
@@ -60,6 +60,7 @@ func (r *runner) childMain(from int) {
 			i = r.segment(list, i, true)
 		}
 	}
+	r.finish()
 	cr.Catalogue, cr.Injected = len(list), r.res.injected
 	cr.SurvivedMS, cr.SurvivedMA, cr.LegitAbort, cr.FinalOK = r.res.survivedMS, r.res.survivedMA, r.res.legitAbort, r.res.finalOK
 	cr.Classes, cr.Counters = r.res.classes, r.res.counters
@@ -140,9 +141,9 @@ func runIsolated(sp spec) *result {
 		out := buf.String()
 		// parse progress
 		var cur struct {
-			idx                  int
-			open                 bool
-			suspect, id, rest    string
+			idx                      int
+			open                     bool
+			suspect, id, class, rest string
 		}
 		gotResult := false
 		for _, l := range strings.Split(out, "\n") {
@@ -158,9 +159,9 @@ func runIsolated(sp spec) *result {
 				cur.idx, _ = strconv.Atoi(f[2])
 				cur.open = true
 				if len(f) == 4 {
-					p := strings.SplitN(f[3], " ", 3)
-					if len(p) == 3 {
-						cur.suspect, cur.id, cur.rest = p[0], p[1], p[2]
+					p := strings.SplitN(f[3], " ", 4)
+					if len(p) == 4 {
+						cur.suspect, cur.id, cur.class, cur.rest = p[0], p[1], p[2], p[3]
 					}
 				}
 			case "END":
@@ -200,10 +201,7 @@ func runIsolated(sp spec) *result {
 			res.add("harness:child-died-outside-an-input", fmt.Sprintf("case %s: child exited (%v) without a result and not inside an input: %s", sp.id(), runErr, clip(tailOf(out, 1200), 1200)))
 			return res
 		}
-		class := cur.rest
-		if i := strings.Index(class, " | "); i >= 0 {
-			class = class[:i]
-		}
+		class := cur.class
 		key, site := panicKey(cur.suspect, class, out)
 		switch {
 		case strings.Contains(out, childTag+" STORM"):
@@ -213,7 +211,7 @@ func runIsolated(sp spec) *result {
 		}
 		deathsByKey[key]++
 		res.injected++
-		res.add(key, fmt.Sprintf("case %s: the process died (panic in a library goroutine at %s) on input %s [%s]: %s", sp.id(), site, cur.id, cur.rest, clip(panicLines(out), 500)))
+		res.add(key, fmt.Sprintf("case %s: the process ended (panic in a library goroutine / stopped by the harness: %s) on input %s [class %s; %s]: %s", sp.id(), site, cur.id, cur.class, cur.rest, clip(panicLines(out), 500)))
 		res.count("child_deaths", 1)
 		from = cur.idx + 1
 		if deathsByKey[key] >= 3 {
